@@ -65,6 +65,24 @@ Catalogue == <<
   \* struct fields as arguments: one option, several assignments behind one (nullable / non-nullable) prefix
   Entry("args", <<RootValid, Kid, Leaf>>,
         <<Rule("args", "Root", "ok", <<"kid", "kname">>), Rule("args", "Root", "req", <<"n", "f">>)>>),
+  \* options obtained by COPYING veneers: option duplicate, rename_arguments, builder duplicate (every constrained option
+  \* of the copies is called with violating arguments; the copied builder is used wherever the object is nested)
+  Entry("copied-options", <<RootValid, Kid, Leaf>>,
+        <<Rule("dup", "Root", "id", <<"id2">>), Rule("dup", "Root", "tags", <<"tags2">>), Rule("renarg", "Root", "name", <<"label">>),
+          Rule("renarg", "Leaf", "n", <<"count">>), Rule("dup", "Leaf", "f", <<"f2">>), Rule("bdup", "Kid", "KidCopy", <<>>)>>),
+  \* collections of collections with item constraints: array of arrays, map of arrays, array of maps
+  Entry("nested-collections", <<
+    Def("Root", TStruct(<<
+      F("matrix", TArr(TArr(TStr(1, -1)))), FOpt("ma", TMap(TArr(TInt("int64", Ge(0), NoB)))), FOpt("am", TArr(TMap(TStr(1, -1)))),
+      FOpt("mm", TMap(TMap(TInt("int64", NoB, Le(2))))), F("cells", TArr(TArr(TRef("Leaf")))), F("w", Str)>>)),
+    Leaf>>, <<>>),
+  \* OPTIONAL scalars (and an optional reference) promoted to constructor arguments
+  Entry("ctor-optional", <<
+    Def("Root", TStruct(<<F("uid", TStr(1, -1)), FOpt("nick", Str), FOpt("age", TInt("int64", Ge(0), NoB)), FOpt("ok", TRef("Kid")),
+                          FOpt("ratio", TNum("float64", NoB, NoB)), F("w", Str), FOpt("sub", TRef("Sub"))>>)),
+    Def("Sub", TStruct(<<FOpt("sname", Str), F("sn", I64)>>)),
+    Kid>>,
+    <<Rule("ctor", "Root", "", <<"uid", "nick", "age">>), Rule("ctor", "Sub", "", <<"sname">>)>>),
   \* two builders of one package with same-named options behind the same nullable prefix
   Entry("two-builders", <<
     Def("Root", TStruct(<<F("gauge", TRef("Gauge")), FOpt("stat", TRef("Stat")), F("w", Str)>>)),
@@ -161,6 +179,8 @@ ApplyRule(S, r, opts) ==
   Flat([i \in DOMAIN opts |->
     LET o == opts[i] IN
     IF r.k = "flavour" THEN (IF o.name = r.fields[1] THEN <<>> ELSE <<o>>)     \* the flavours hide the option they fix
+    ELSE IF r.k \in {"renarg", "bdup"} THEN <<o>>       \* renamed arguments / a second builder for the object: same options
+    ELSE IF r.k = "dup" THEN (IF o.name = r.field THEN <<o, Opt(r.fields[1], o.args, o.asgs)>> ELSE <<o>>)   \* option duplicate
     ELSE IF r.k = "ctor" \/ o.name # r.field THEN <<o>>
     ELSE CASE r.k = "unfold" ->
                 LET st == AsStruct(S, "", o.args[1]).t IN
@@ -186,6 +206,8 @@ BuilderOf(S, key, t, rules) ==
       prom == Promoted(key, rules)
       pos(n) == CHOOSE i \in DOMAIN all : all[i].name = n
   IN [key |-> key,
+      \* valid arguments for "the freshly constructed builder" of a constructor that takes arguments
+      ctor0 |-> [j \in DOMAIN prom |-> Base(S, all[pos(prom[j])].args[1], Fuel)],
       ctor |-> [args |-> [j \in DOMAIN prom |-> all[pos(prom[j])].args[1]],
                 asgs |-> [j \in DOMAIN prom |-> Asg(all[pos(prom[j])].asgs[1].path, "direct", j, 0)]],
       opts |-> all]      \* a promoted option stays an option as well
@@ -205,12 +227,15 @@ Small(S, t, n) ==
           \cup (IF bads = {} THEN {} ELSE {CHOOSE v \in bads : TRUE})
           \cup (IF n = 2 /\ alts # {} THEN {CHOOSE v \in alts : TRUE} ELSE {})
 \* argument tuples of one option / constructor; n = length of the sequence the call is part of
+RECURSIVE Prod(_, _, _, _)
+Prod(S, args, n, i) ==
+  IF i > Len(args) THEN {<<>>}
+  ELSE {<<v>> \o rest : v \in Small(S, args[i], n), rest \in Prod(S, args, n, i + 1)}
 Tuples(S, o, n) ==
   IF Len(o.args) = 0 THEN {<<>>}
   ELSE IF Len(o.asgs) = 1 /\ o.asgs[1].m = "index"
   THEN {<<k, v>> : k \in (IF n = 1 THEN MapKeys ELSE {JStr("k1")}), v \in Small(S, o.args[2], n)}
-  ELSE IF Len(o.args) = 1 THEN {<<v>> : v \in Small(S, o.args[1], n)}
-  ELSE {<<v, w>> : v \in Small(S, o.args[1], n), w \in Small(S, o.args[2], n)}    \* constructors: at most two promoted options
+  ELSE Prod(S, o.args, n, 1)
 CallTab ==
   [i \in DOMAIN Catalogue |->
      LET S == DefsFn(Catalogue[i].schema) b == Builders(Catalogue[i])["Root"] IN
